@@ -13,7 +13,8 @@ ap.add_argument("--only", default=".")
 ap.add_argument("--extra", default="")
 ap.add_argument("--tier", default="quick")
 a = ap.parse_args()
-SEED = "/verif/seeded"
+ROOT = os.path.dirname(os.path.dirname(os.path.abspath(__file__)))
+SEED = "/verif/seeded"   # results are always recorded in /verif/seeded; the checks run from ROOT (maybe a snapshot copy)
 names = sorted(n for n in os.listdir(SEED) if os.path.isdir(f"{SEED}/{n}") and re.search(a.only, n))
 
 
@@ -34,7 +35,7 @@ def one(n):
         if r.returncode: return n, prop, ["NOAPPLY"], r.stdout
         for cid in [prop] + [x for x in a.extra.split(",") if x and x != prop]:
             env = dict(os.environ, VERIF_REPO=wt, VERIF_OUT=out, TMPDIR=out)
-            r = sh(f"/verif/check {cid} --tier {a.tier}", env=env)
+            r = sh(f"{ROOT}/check {cid} --tier {a.tier}", env=env)
             v = [ln for ln in r.stdout.splitlines() if ln.startswith("VIOLATION property=")]
             if r.returncode == 1 and v:
                 det.append(cid)
